@@ -36,7 +36,8 @@ def describe(tier):
                 f"{len(COND)} strings incl. keys outside the number ranges), Pm(s) (a MALFORMED string that equals a valid one when whitespace is "
                 "removed), Pa(s) (AHB parser), R(s) (resolver with packages + time conditions, AHB and condition string), Ev(s) "
                 "(evaluate under a fixed content evaluation result), Edit(handle, node, kind) - child list edits, renaming, and assignment to the attributes of a Token object - on one of the last two returned trees for EVERY "
-                f"node of the tree and kind in {EDIT_KINDS}, (the invariant also re-parses a 7-operand expression with runs of U, O and X: same grouping in every state), Flood (= {FLOOD_N} fresh distinct strings through both public parsers: real LRU "
+                f"node of the tree and kind in {EDIT_KINDS}, (the invariant also re-parses a 7-operand expression with runs of U, O and X: same grouping in every state), and, as a separate family, all histories P, Flood(n), P, Edit(every node of the tree the second P returned; quick tier: 3 of the 6 edit kinds, 3 of the 5 P) for n in "
+                f"{FLOOD_EDIT_N[tier]} (more than the cache / more than half of it), Flood (= {FLOOD_N} fresh distinct strings through both public parsers: real LRU "
                 f"eviction, every flooded result checked); at most {b['max_edits']} edits per history, at most one flood, floods only in "
                 "edit-free histories (deviation bounds). Every transition replays the history from scratch on the real functions with "
                 "per-execution whitespace-padded spellings (distinct cache keys, same trees). Invariant evaluated in EVERY state: for every "
@@ -51,9 +52,18 @@ def describe(tier):
     }
 
 
+# histories of the fixed shape  P, Flood(n), P, Edit(any node, any kind, on the tree the second P returned), [invariant]
+# n = more than the whole cache / more than half of it (LRU approximations with generations) / just below the cache size
+FLOOD_EDIT_P = [["Pc", 0], ["Pc", 1], ["Pc", 3], ["Pa", 0], ["R", 1]]
+FLOOD_EDIT_N = {"quick": [600, 1100], "thorough": [300, 600, 900, 1023, 1100]}
+
+
 def plan(tier, seed):
     b = BOUNDS[tier]
     items = []
+    for pi in ((0, 3, 4) if tier == "quick" else range(len(FLOOD_EDIT_P))):
+        for n in FLOOD_EDIT_N[tier]:
+            items.append({"fam": "flood-edit", "p": pi, "n": n, "tier": tier})
     for first in NONEDIT_OPS:
         for r in range(b["spread"]):
             items.append({"first": first, "residue": r, "spread": b["spread"], "tier": tier})
@@ -192,7 +202,7 @@ def _apply(world: World, op):
         _evaluate(world.ahb(op[1]))
     elif kind == "Flood":
         # fresh distinct strings with keys INSIDE the number ranges (distinct by key pair + the execution's padding)
-        for j in range(FLOOD_N):
+        for j in range(op[1] if len(op) > 1 else FLOOD_N):
             k1, k2 = str(1 + j % 499), str(501 + (j // 499) % 400)
             fs = f"[{k1}]U[{k2}]{world.pad}"
             r = I.try_call(I.parse_condition_expression_to_tree, fs)
@@ -312,6 +322,30 @@ def run_item(item):
         worker_init()
     b = BOUNDS[item["tier"]]
     r = Result()
+    if item.get("fam") == "flood-edit":
+        p = FLOOD_EDIT_P[item["p"]]
+        prefix = [p, ["Flood", item["n"]], p]
+        _, viol, ops = execute(prefix)
+        hists = [(prefix, viol)]
+        last = None
+        for o in ops:
+            if o[0] == "Edit":
+                last = o[1] if last is None or o[1] > last else last
+        for o in ops:
+            if o[0] == "Edit" and o[1] == last and (item["tier"] != "quick" or o[3] in ("append_child", "set_token_value", "delete_child")):
+                _, v2, _ = execute(prefix + [o])
+                hists.append((prefix + [o], v2))
+        for hist, vs in hists:
+            r.evaluations += 1
+            r.states += 1
+            r.transitions += len(hist)
+            r.traces += 1
+            r.nontrivial += 1
+            for v in vs:
+                r.violation(v["kind"], {"history": hist, "target": v["target"]}, v["expected"], v["observed"],
+                            f"after history {hist}: {v['target']} differs from the cold-state result")
+        r.sample({"history": prefix + ["Edit(...) x %d" % (len(hists) - 1)]})
+        return r
     res = histories.bfs(execute, [item["first"]], b["depth"], op_filter=_filter(b, item))
     r.evaluations = res.histories
     r.states = res.states
